@@ -917,7 +917,7 @@ def shuffle_test(
     return {
         "Threshold": threshold,
         "Value": observed_cmi,
-        "Pass": observed_cmi >= threshold,
+        "Pass": observed_cmi > threshold,
         "P_value": p_value,
     }
 
